@@ -21,6 +21,14 @@ type Val struct {
 	Tuple []Val
 	// statically known function value
 	Fn *FnVal
+	// call-site argument array tracked statically (varargs / slice literals)
+	VA    *varArr
+	VAIdx int
+}
+
+type varArr struct {
+	elem types.Type
+	vals []Val
 }
 
 type pathElem struct {
